@@ -97,59 +97,58 @@ pub(crate) fn snap(st: &Store) -> Snap {
     Snap { used: st.used, keys: st.keys, vlen: st.vlen, vals: st.vals }
 }
 
-/// true iff the entry with key `k` is the same (present with the same bytes, or absent) in both.
-pub(crate) fn same_entry(before: &Snap, after: &Store, k: u64) -> bool {
-    let mut bi = CAP;
-    let mut ai = CAP;
-    let mut i = 0;
-    while i < CAP {
-        if before.used[i] && before.keys[i] == k {
-            bi = i;
-        }
-        if after.used[i] && after.keys[i] == k {
-            ai = i;
-        }
-        i += 1;
-    }
-    if bi == CAP || ai == CAP {
-        return bi == CAP && ai == CAP;
-    }
-    let mut s = 0;
-    let mut okk = true;
-    while s < CAP {
-        let mut t = 0;
-        while t < CAP {
-            if s == bi && t == ai {
-                if before.vlen[s] != after.vlen[t] {
-                    okk = false;
-                } else {
-                    let mut j = 0;
-                    while j < heed::VMAX {
-                        if j < before.vlen[s] && before.vals[s][j] != after.vals[t][j] {
-                            okk = false;
-                        }
-                        j += 1;
-                    }
-                }
-            }
-            t += 1;
-        }
-        s += 1;
-    }
-    okk
+/// First 16 value bytes as one little-endian word.
+pub(crate) fn val16(v: &[u8; heed::VMAX]) -> u128 {
+    let a: [u8; 16] = [v[0], v[1], v[2], v[3], v[4], v[5], v[6], v[7], v[8], v[9], v[10], v[11], v[12], v[13], v[14], v[15]];
+    u128::from_le_bytes(a)
+}
+/// Mask selecting the first `len` (<= 16) bytes of a `val16` word.
+pub(crate) fn mask16(len: usize) -> u128 {
+    if len >= 16 { u128::MAX } else { (1u128 << (8 * len as u32)) - 1 }
 }
 
 /// Frame condition over the whole store: every key present before or after, except those for
-/// which `exempt(key)` holds, is unchanged.
+/// which `exempt(key)` holds, is present on both sides with byte-identical value.
 pub(crate) fn frame_except(before: &Snap, after: &Store, exempt: impl Fn(u64) -> bool) -> bool {
-    let mut i = 0;
     let mut r = true;
+    let mut i = 0;
     while i < CAP {
-        if before.used[i] && !exempt(before.keys[i]) && !same_entry(before, after, before.keys[i]) {
-            r = false;
+        if before.used[i] && !exempt(before.keys[i]) {
+            // locate the key in the post-state and copy its value out (6 guarded copies)
+            let k = before.keys[i];
+            let mut found = false;
+            let mut val = [0u8; heed::VMAX];
+            let mut len = 0usize;
+            let mut t = 0;
+            while t < CAP {
+                if after.used[t] && after.keys[t] == k {
+                    found = true;
+                    val = after.vals[t];
+                    len = after.vlen[t];
+                }
+                t += 1;
+            }
+            // values of non-exempt entries are <= 16 bytes in every harness (sym_store's vmax):
+            // compare them as one masked 128-bit word instead of a byte loop
+            if !found || len != before.vlen[i] || len > 16 {
+                r = false;
+            } else if (val16(&before.vals[i]) ^ val16(&val)) & mask16(len) != 0 {
+                r = false;
+            }
         }
-        if after.used[i] && !exempt(after.keys[i]) && !same_entry(before, after, after.keys[i]) {
-            r = false;
+        if after.used[i] && !exempt(after.keys[i]) {
+            let k = after.keys[i];
+            let mut found = false;
+            let mut t = 0;
+            while t < CAP {
+                if before.used[t] && before.keys[t] == k {
+                    found = true;
+                }
+                t += 1;
+            }
+            if !found {
+                r = false;
+            }
         }
         i += 1;
     }
@@ -164,4 +163,52 @@ pub(crate) fn key_kind(k: u64) -> u8 {
 }
 pub(crate) fn key_id(k: u64) -> u32 {
     (k >> 8) as u32
+}
+
+/// Fill slots 0..n (n constant) of an empty store with arbitrary distinct entries of the kinds
+/// arroy writes (kind byte 0..=3, padding 0): any index (so neighbours of the index under test,
+/// 0 and 65535 are among the solver's choices), any id, any value bytes of length <= `vmax`.
+/// Each slot is independently present or absent.
+pub(crate) fn sym_store(s: &mut Store, n: usize, vmax: usize) {
+    let mut i = 0;
+    while i < n {
+        if kani::any() {
+            let k: [u8; 8] = kani::any();
+            kani::assume(k[2] <= 3 && k[7] == 0);
+            let kk = u64::from_be_bytes(k);
+            let mut j = 0;
+            while j < i {
+                kani::assume(!(s.used[j] && s.keys[j] == kk));
+                j += 1;
+            }
+            let v: [u8; heed::VMAX] = kani::any();
+            let len: usize = kani::any();
+            kani::assume(len <= vmax && vmax <= 16);
+            s.set_slot_sym(i, k, v, len);
+        }
+        i += 1;
+    }
+}
+
+/// Bytes of the value stored under slot `i` equal `expect`.
+pub(crate) fn slot_val_is(st: &Store, i: usize, expect: &[u8]) -> bool {
+    let mut r = true;
+    let mut s = 0;
+    while s < CAP {
+        if s == i {
+            if st.vlen[s] != expect.len() {
+                r = false;
+            } else {
+                let mut j = 0;
+                while j < expect.len() {
+                    if st.vals[s][j] != expect[j] {
+                        r = false;
+                    }
+                    j += 1;
+                }
+            }
+        }
+        s += 1;
+    }
+    r
 }
